@@ -24,7 +24,10 @@ RULE = (
     "thorough adds full-trace K=2 and focus K=3); gen: generated programs with a drawn descent of <=3 effective "
     "preemptions (every prefix schedule is judged too). Oracle per probe, every run: the delivered list is a prefix of "
     "the received list (exactly once, in order); no callback starts while a callback of another thread is in flight; "
-    "every delivery on a non-producer thread and, for the event loop, all on one thread; after a raising delivery k "
+    "every delivery on a non-producer thread, for the event loop all on the TARGET loop's own thread, and never on the thread "
+    "of a different scheduler handed to subscribe(observer, scheduler=X) (X = a second EventLoopScheduler or a "
+    "CurrentThreadScheduler; X is only the default for operators without a scheduler of their own, the target stays the "
+    "one given to observe_on / ReplaySubject); after a raising delivery k "
     "exactly k+1 deliveries; after a dispose() issued from inside delivery k (deliveries being serial, every later one "
     "would start after that dispose() returned) exactly k+1 deliveries; at quiescence delivered == received unless that probe raised, its subscription was disposed, "
     "or a raise killed the plain EventLoopScheduler thread; no deadlock; no exception other than the probe's own on a "
@@ -37,7 +40,8 @@ ASSUMPTIONS = [
     "received list = what the ScheduledObserver/ObserveOnObserver itself was handed (logged by a recording subclass at _on_*_core); what the subject in front of it chooses to hand over is not judged",
     "CPython GIL-build atomicity: a source line is the unit of interleaving; locks/conditions/threads are the cooperative replacements of vlib/det.py",
     "bounds: <=6 notifications, <=2 subscribers, <=2 (quick) / <=3 (thorough) preemptions exhaustive, <=3 drawn; no unbounded model of the handshake",
-    "what happens to queued notifications after dispose() is not judged here (only: still a prefix, no overlap)",
+    "what happens to queued notifications after a dispose() issued from another thread is not judged here (only: still a prefix, no overlap)",
+    "a scheduler passed to subscribe() is only the default for operators without their own; the delivery target stays the scheduler given to observe_on / ReplaySubject (their docstrings: 'scheduler to observe on' / 'scheduler the observers are invoked on')",
 ]
 TIMEOUT = {"quick": 300, "thorough": 3600}
 
@@ -62,6 +66,32 @@ def _scheduler(on):
     if on == "pool":
         return ThreadPoolScheduler(2)
     raise HarnessError(f"bad scheduler kind {on}")
+
+
+def _other_scheduler(kind):
+    """Subscribe-time scheduler (`subscribe(observer, scheduler=X)`): the default scheduler for operators that have none of
+    their own.  It is NOT the target of observe_on / of the ReplaySubject, so no delivery may happen on it."""
+    from reactivex.scheduler import CurrentThreadScheduler, EventLoopScheduler
+
+    if kind is None:
+        return None
+    if kind == "loop":
+        return EventLoopScheduler()
+    if kind == "current":
+        return CurrentThreadScheduler()
+    raise HarnessError(f"bad sub_sched {kind}")
+
+
+def _loop_tid(sch):
+    """Logical thread id of an EventLoopScheduler's thread (None if it never started one); looks through CatchScheduler."""
+    inner = getattr(sch, "_scheduler", sch)
+    th = getattr(inner, "_thread", None)
+    if th is None:
+        return None
+    ct = getattr(th, "_ct", None)
+    if ct is None:
+        raise HarnessError(f"cannot identify the thread of {inner!r} (det.CThread layout changed?)")
+    return ct.tid
 
 
 _REC = {}
@@ -149,18 +179,19 @@ def _build(case):
         return f
 
     probes = [conc.Probe(f"p{i}", raise_at=s.get("raise"), dispose_at=s.get("dispose_cb"), disposer=disposer(i)) for i, s in enumerate(subs)]
+    others = [_other_scheduler(s.get("sub_sched")) for s in subs]  # the scheduler= argument of subscribe(), if any
     if case["target"] == "observe_on":
         subj = Subject()
         piped = subj.pipe(ops.observe_on(sch))
 
         def subscribe(i):
-            disp[i] = piped.subscribe(probes[i])
+            disp[i] = piped.subscribe(probes[i], scheduler=others[i])
 
     else:
         subj = ReplaySubject(scheduler=sch)
 
         def subscribe(i):
-            disp[i] = subj.subscribe(probes[i])
+            disp[i] = subj.subscribe(probes[i], scheduler=others[i])
 
     bad = det.audit_object(subj)
     if bad:
@@ -203,7 +234,7 @@ def _build(case):
         return body
 
     threads = [producer] + [late(i) for i, s in enumerate(subs) if s["at"] == "thr"]
-    return threads, {"probes": probes, "nprog": len(threads), "case": case}
+    return threads, {"probes": probes, "nprog": len(threads), "case": case, "target": sch, "others": others}
 
 
 def _judge(ctx, res):
@@ -226,6 +257,12 @@ def _judge(ctx, res):
             return "wrong-thread", f"{tag}: delivered on program thread(s) {sorted(set(tids), key=str)}"
         if on in ("loop", "catchloop") and len(set(tids)) > 1:
             return "wrong-thread", f"{tag}: the event loop's deliveries came from threads {sorted(set(tids))}"
+        if on in ("loop", "catchloop") and tids and set(tids) != {_loop_tid(ctx["target"])}:
+            return "wrong-thread", f"{tag}: delivered on thread(s) {sorted(set(tids))}, the TARGET event loop's thread is {_loop_tid(ctx['target'])}"
+        for o in ctx["others"]:  # a subscribe-time scheduler is not the target: nothing may be delivered on it
+            ot = _loop_tid(o) if o is not None and hasattr(o, "_thread") else None
+            if ot is not None and ot in tids:
+                return "wrong-thread", f"{tag}: delivered on thread {ot}, the thread of the scheduler passed to subscribe(), not on the target scheduler"
         if got != exp[: len(got)]:
             dup = any(got.count(g) > 1 for g in got)
             return ("duplicate" if dup else "order"), tag
@@ -261,6 +298,9 @@ def _classes(ctx, res):
         cl.append("raised")
         if any(p.raised and p.raised[0] + 1 < len(case["seq"]) for p in probes):
             cl.append("raised-with-more-received")
+    for s in case["subs"]:
+        if s.get("sub_sched"):
+            cl.append("sub-sched:" + s["sub_sched"])
     if case.get("dispose") is not None:
         cl.append("disposed")
     if any(p.disposed_in_cb is not None for p in probes):
@@ -362,6 +402,18 @@ _EXTRA_K1 = [
     ("replay", "catchloop", "NNE", [_pre(), _dcb(1)], None),
     ("replay", "loop", "NNC", [_dcb(0, "thr")], None),
 ]
+def _ss(kind, at="pre"):
+    return {"at": at, "raise": None, "sub_sched": kind}
+
+
+# round 4: subscribe(observer, scheduler=X) with X different from the target
+_EXTRA_K1 += [
+    ("observe_on", "loop", "NNC", [_ss("loop")], None),
+    ("observe_on", "catchloop", "NC", [_ss("current")], None),
+    ("observe_on", "newthread", "NC", [_ss("loop")], None),
+    ("replay", "loop", "NC", [_ss("loop"), _pre()], None),
+    ("replay", "pool", "NC", [_ss("current", "thr")], None),
+]
 _EXTRA_K2 = [
     ("observe_on", "pool", "NN", [_pre()], None),
     ("observe_on", "loop", "NN", [_dcb(0)], None),
@@ -413,10 +465,11 @@ _seq = st.builds(lambda n, t: "N" * n + t, st.integers(0, 5), st.sampled_from(["
 def _subs(target, n):
     raise_ = st.one_of(st.none(), st.none(), st.integers(0, n - 1))
     dcb = st.one_of(st.none(), st.none(), st.none(), st.integers(0, n - 1))
+    ss = st.sampled_from([None, None, "loop", "current"])
     if target == "observe_on":
-        return st.lists(st.fixed_dictionaries({"at": st.just("pre"), "raise": raise_, "dispose_cb": dcb}), min_size=1, max_size=1)
+        return st.lists(st.fixed_dictionaries({"at": st.just("pre"), "raise": raise_, "dispose_cb": dcb, "sub_sched": ss}), min_size=1, max_size=1)
     at = st.one_of(st.just("pre"), st.just("pre"), st.just("thr"), st.just("thr"), st.integers(0, n))
-    return st.lists(st.fixed_dictionaries({"at": at, "raise": raise_, "dispose_cb": dcb}), min_size=1, max_size=2)
+    return st.lists(st.fixed_dictionaries({"at": at, "raise": raise_, "dispose_cb": dcb, "sub_sched": ss}), min_size=1, max_size=2)
 
 
 _gen = st.tuples(st.sampled_from(["observe_on", "replay", "replay"]), _seq).flatmap(
